@@ -99,6 +99,10 @@ def _one(R, rng, i):
     if layout != "rgb" and rng.random() < 0.2:
         in_minmax = rng.choice([(0.0, 255.0), (None, 1000.0), (-100.0, 100.0), (10.0, 20.0)])
     target = rng.choice([None, None] + NG)
+    if in_minmax and target == "uint64":
+        target = "uint32"      # float -> uint64 at the top of the range is the C11 finding, kept out of C01
+    if in_minmax and target is None and disk in ("uint64", "int64"):
+        target = "uint16"
     storage = rng.choice(["deep-gz", "flat-gz", "deep", "flat", "sharded", "sharded-gz"])
     tcs = rng.choice([1, 2, 4, 8])
     out = os.path.join(d, "out")
@@ -234,7 +238,10 @@ def _one(R, rng, i):
         return
     if out_dt.kind in "ui":
         diff = np.abs(got.astype(object) - expected.astype(object))
-        bad = np.argwhere(diff > tol)
+        # with --input-min/max the scaling runs in float64 inside nibabel: one unit in the last place of
+        # the work type (relative 2^-48 allowed on top of one integer unit)
+        lim = np.vectorize(lambda e: tol + (abs(int(e)) >> 48 if tol else 0), otypes=[object])(expected)
+        bad = np.argwhere(diff > lim)
     else:
         if in_minmax:
             bad = np.argwhere(~np.isclose(got, expected, rtol=1e-5, atol=1e-6))
